@@ -60,10 +60,15 @@ def shrink(exe_cmd, case, still_fails, budget=120):
         for i in range(1, len(toks)):
             if not re.match(r'^-?\d+(/\d+)?$', toks[i]) or len(toks[i]) == 16 or toks[i] in cand[:2]: continue
             trial_lines = []
-            for c in cand:
+            # plain non-negative integers are usually structural (sizes, counts): never make them negative or fractional
+            cands = ['1', '2'] if toks[i].isdigit() else cand
+            for c in cands:
                 if c == toks[i]: continue
                 t = list(toks); t[i] = c; trial_lines.append(' '.join(t))
-            outs = core.run_lines(exe_cmd, trial_lines)
+            try:
+                outs = core.run_lines(exe_cmd, trial_lines, timeout=20)
+            except Exception:
+                continue
             for tl, o in zip(trial_lines, outs):
                 if not o.startswith('err protocol') and not o.startswith('err unknown') and still_fails(tl, o):
                     toks = tl.split(); changed = True; break
